@@ -20,7 +20,11 @@ struct c16_res {
     int snap_changed;
     char snap_what[96];
 };
-struct c16_case { void (*fn)(struct c16_res *); const char *func; const char *desc; const char *vc; };
+struct c16_case { void (*fn)(struct c16_res *, int); const char *func; const char *desc; const char *vc; int has_scalar; };
+/* integer arguments (indices, counts, sizes) by variant: in range, zero, negative, past the end of the 2-element samples */
+static const long C16_SCALARS[] = { 1, 0, -1, 7 };
+#define C16_NVARIANTS 4
+#define C16_SCALAR(v) (C16_SCALARS[(v) % C16_NVARIANTS])
 
 /* ---- allocation window monitor (ASan malloc hooks; weak so that non-ASan builds link) ---- */
 extern int __sanitizer_install_malloc_and_free_hooks(void (*mh)(const volatile void *, size_t), void (*fh)(const volatile void *)) __attribute__((weak));
@@ -126,10 +130,11 @@ static char *c16_builtin(char *a) { return a; }
 
 #include "c16_cases.inc"
 
-static int LEVELS_Q[] = { 0, 1 };
-static int LEVELS_T[] = { 0, 1, 3, 5 };
+/* (runtime debug level, silent) cells */
+static const int CELLS_Q[][2] = { {0, 0}, {1, 0}, {1, 1} };
+static const int CELLS_T[][2] = { {0, 0}, {1, 0}, {1, 1}, {3, 0}, {5, 0}, {0, 1} };
 
-static void run_child(struct c16_case *c, int level, int rfd, int efd)
+static void run_child(struct c16_case *c, int level, int silent_on, int variant, int rfd, int efd)
 {
     struct c16_res res;
     memset(&res, 0, sizeof res);
@@ -139,7 +144,8 @@ static void run_child(struct c16_case *c, int level, int rfd, int efd)
     libast_print_warning("warm-up %d\n", 1);          /* stdio warmed up outside the measured window */
     if (__sanitizer_install_malloc_and_free_hooks) __sanitizer_install_malloc_and_free_hooks(mhook, fhook);
     DEBUG_LEVEL = (unsigned) level;
-    c->fn(&res);
+    if (silent_on) libast_set_silent(TRUE);
+    c->fn(&res, variant);
     if (write(rfd, &res, sizeof res) < 0) { }
     _exit(0);
 }
@@ -148,21 +154,25 @@ int main(int argc, char **argv)
 {
     vh_init(argc, argv, "C16");
     int thorough = !strcmp(vh_tier, "thorough");
-    int *levels = thorough ? LEVELS_T : LEVELS_Q;
-    int nlev = thorough ? 4 : 2;
+    const int (*cells)[2] = thorough ? CELLS_T : CELLS_Q;
+    int nlev = thorough ? 6 : 3;
     signal(SIGPIPE, SIG_IGN);
     while (vh_next_case()) {
         if (VH_CASE_TRY()) {
+            /* cell index = ((row * nlev) + levelcell) * NVARIANTS + variant; rows without integer arguments run variant 0 only */
             long cell = vh_case_idx;
-            if (cell >= (long) C16_NCASES * nlev) { vh_case_done(); continue; }
-            struct c16_case *c = &C16_CASES[cell / nlev];
-            int level = levels[cell % nlev];
-            vh_op("%s at runtime debug level %d", c->desc, level);
+            if (cell >= (long) C16_NCASES * nlev * C16_NVARIANTS) { vh_case_done(); continue; }
+            int variant = (int) (cell % C16_NVARIANTS);
+            long rc = cell / C16_NVARIANTS;
+            struct c16_case *c = &C16_CASES[rc / nlev];
+            int level = cells[rc % nlev][0], silent_on = cells[rc % nlev][1];
+            if (variant && !c->has_scalar) { vh_count("cells_without_integer_arguments_skipped", 1); vh_case_done(); continue; }
+            vh_op("%s at runtime debug level %d, silent %s, integer arguments = %ld", c->desc, level, silent_on ? "on" : "off", C16_SCALAR(variant));
             int rp[2], ep[2];
             if (pipe(rp) || pipe(ep)) vh_fail("harness:pipe", "pipe failed");
             fflush(stdout); fflush(stderr);
             pid_t pid = fork();
-            if (pid == 0) { close(rp[0]); close(ep[0]); run_child(c, level, rp[1], ep[1]); }
+            if (pid == 0) { close(rp[0]); close(ep[0]); run_child(c, level, silent_on, variant, rp[1], ep[1]); }
             close(rp[1]); close(ep[1]);
             /* drain stderr (bounded) then the result */
             char errbuf[6000]; size_t eo = 0; ssize_t k;
@@ -173,9 +183,11 @@ int main(int argc, char **argv)
             close(rp[0]); close(ep[0]);
             int st = 0; waitpid(pid, &st, 0);
             vh_evals(1);
-            vh_cov(vh_mix(vh_hash_str(c->desc, 3), (uint64_t) level));
+            vh_cov(vh_mix(vh_hash_str(c->desc, 3), (uint64_t) level * 16 + (uint64_t) silent_on * 8 + (uint64_t) variant));
             char k1[96];
-            int fatal_path = WIFEXITED(st) && WEXITSTATUS(st) == 255 && strstr(errbuf, "FATAL:") != NULL;
+            int fatal_path = WIFEXITED(st) && WEXITSTATUS(st) == 255 && (silent_on || strstr(errbuf, "FATAL:") != NULL);
+            if (silent_on) vh_count("silent_cells", 1);
+            if (variant) vh_count("integer_argument_variants", 1);
             int normal = WIFEXITED(st) && WEXITSTATUS(st) == 0 && got == (ssize_t) sizeof res && res.reached_end;
             /* strip the warm-up line for reporting */
             char *diag = strstr(errbuf, "warm-up 1\n"); diag = diag ? diag + 10 : errbuf;
@@ -196,7 +208,7 @@ int main(int argc, char **argv)
                         WIFSIGNALED(st) ? WTERMSIG(st) : WEXITSTATUS(st), res.reached_end, diag);
             }
             vh_count(c->vc, 1);
-            if ((cell % 211) == 0) vh_sample("%s @level %d -> %s", c->desc, level, fatal_path && level >= 1 ? "fatal exit 255" : res.got[0] ? res.got : "void/ok");
+            if ((cell % 811) == 0) vh_sample("%s @level %d -> %s", c->desc, level, fatal_path && level >= 1 ? "fatal exit 255" : res.got[0] ? res.got : "void/ok");
         }
         vh_case_done();
     }
